@@ -19,7 +19,8 @@ from common import hexs
 CONFIG = {
     "id": "C09b",
     "rule": ("seeded random flow-style YAML documents x straight key/index paths made of an existing prefix of every "
-             "length (including the empty and the complete one, prefixes ending at null, at a scalar, at a set) and a "
+             "length (including the empty and the complete one, prefixes ending at a scalar, at a set, and - 30 % of the "
+             "cases of a document that holds nulls - at a null, where the tail is built beneath the null) and a "
              "missing tail of 0-3 segments (new keys incl. one-character interned ones, indexes len, len+1, len+3, "
              "0-2 inside new sequences) x scalar values of every type x value formats x {set_value, optional "
              "get_nodes}.  non-trivial = something was created; distinct = distinct case."),
@@ -102,16 +103,40 @@ def py_seg_child(cur, t, a):
 
 def py_creates(data, escaped):
     """The guard of the document-level theorems (C09create.creates), computed on the loaded document: something
-    is to be created, no null on the existing prefix (F10b), the tail does not start below a set (F25)."""
+    is to be created and the tail does not start below a set (F25).  A null with segments still to go is a place
+    where the tail is missing (fix 09e1e7a; the guard used to exclude it: F10b)."""
     cur = data
-    for (t, a) in escaped:
+    for j, (t, a) in enumerate(escaped):
         found, child = py_seg_child(cur, t, a)
         if not found:
             return not mutgen.is_set(cur)
         if child is None:
-            return False
+            return j < len(escaped) - 1
         cur = child
     return False
+
+
+def py_null_place(data, escaped):
+    """(container, ref) of the null at which the existing prefix of the path ends with segments still to go
+    (C09create.null_prefix), else None: the one place where a creation may replace a pre-existing node."""
+    from yamlpath.enums import PathSegmentTypes
+    cur = data
+    for j, (t, a) in enumerate(escaped):
+        found, child = py_seg_child(cur, t, a)
+        if not found:
+            return None
+        if child is None:
+            if j == len(escaped) - 1 or not isinstance(cur, (dict, list)):
+                return None
+            if isinstance(cur, list):
+                z = a if t is PathSegmentTypes.INDEX else int(a)
+                return (cur, z + len(cur) if z < 0 else z)
+            for k in cur:
+                if isinstance(k, str) and str.__str__(k) == a:
+                    return (cur, k)
+            return None
+        cur = child
+    return None
 
 
 def run_case(case):
@@ -137,6 +162,7 @@ def run_case(case):
         return rec
     shadow = mutgen.Shadow(data)
     rec["guard"] = py_creates(data, yp.escaped)
+    rec["null_place"] = py_null_place(data, yp.escaped)
     rec["guard_request"] = "(create-guard %s %s)" % (before, segs)
     p = E["Processor"](E["log"], data)
     vo = enc.oids.get(id(value)) if (value is None or isinstance(value, (str, int, float))) else None
@@ -179,7 +205,18 @@ def verdict(rec, case):
             return "raised %s" % type(rec["exc"]).__name__
         return None       # refused with a YAML Path error (the property speaks of creations that happen)
     # frame: every container that existed keeps its children, in order, as a prefix; at most one container grew,
-    # and (set mode) at most one pre-existing child was replaced (the matched node when the path already existed)
+    # and (set mode) at most one pre-existing child was replaced (the matched node when the path already existed).
+    # One more creation site since fix 09e1e7a: the null at which the existing prefix of the path ends with
+    # segments still to go is replaced by a NEW container that holds the tail (and by nothing else).
+    nplace = rec.get("null_place")
+    nullrep = False
+    if nplace is not None:
+        now = nplace[0][nplace[1]]
+        if now is not None:
+            if not isinstance(now, (dict, list)) or id(now) in shadow.kids:
+                return ("the null at the end of the existing prefix was replaced by something that is not a new "
+                        "container (the tail was not built beneath it)")
+            nullrep = True
     grew = False
     for cid, (kind, items) in shadow.kids.items():
         obj = [x for x in shadow.keep if id(x) == cid][0]
@@ -187,16 +224,14 @@ def verdict(rec, case):
             grew = True
     if mode == "query":
         # an optional query never replaces what the document held ("every node that existed before is
-        # unchanged"), whether or not it creates anything
-        r = replaced_child(shadow)
+        # unchanged"), whether or not it creates anything - except that null
+        r = replaced_child(shadow, nplace if nullrep else None)
         if r is not None:
             return "the optional query replaced a pre-existing node (%s)" % r
-    if not grew:
-        # nothing was created: a plain set / query on existing nodes (C03 / C09a) - but a set must still
-        # make the path resolve to the value
-        if mode == "set":
-            return resolves(rec, case)
-        return None
+    if not grew and not nullrep:
+        # nothing was created: a plain set / query on existing nodes (C03 / C09a) - but the path must now resolve
+        # (set mode: to the value)
+        return resolves(rec, case)
     grown = []
     replaced = 0
     for cid, (kind, items) in shadow.kids.items():
@@ -208,7 +243,7 @@ def verdict(rec, case):
             for (k0, v0), (k1, v1) in zip(items, live):
                 if k0 is not k1 and k0 != k1:
                     return "a pre-existing key changed"
-                if v0 is not v1:
+                if v0 is not v1 and not (nullrep and obj is nplace[0] and k1 == nplace[1]):
                     replaced += 1
             if len(live) > len(items):
                 grown.append((obj, len(live) - len(items)))
@@ -216,8 +251,8 @@ def verdict(rec, case):
             live = list(obj)
             if len(live) < len(items):
                 return "a sequence lost elements"
-            for v0, v1 in zip(items, live):
-                if v0 is not v1:
+            for j, (v0, v1) in enumerate(zip(items, live)):
+                if v0 is not v1 and not (nullrep and obj is nplace[0] and j == nplace[1]):
                     replaced += 1
             if len(live) > len(items):
                 grown.append((obj, len(live) - len(items)))
@@ -230,9 +265,9 @@ def verdict(rec, case):
     if not any(obj is p.data for obj in shadow.keep[:1]) and shadow.keep:
         if p.data is not shadow.keep[0]:
             return "the document root was replaced"
-    if not grown:
+    if not grown and not nullrep:
         return None       # nothing was created: a plain set / query on existing nodes (C03 / C09a)
-    if len(grown) > 1:
+    if len(grown) + (1 if nullrep else 0) > 1:
         return "more than one pre-existing container grew"
     if replaced:
         return "a pre-existing node was replaced although a tail was created"
@@ -255,22 +290,21 @@ def verdict(rec, case):
     v = created_tail_ok(rec)
     if v is not None:
         return v
-    if mode == "set":
-        return resolves(rec, case)
-    return None
+    return resolves(rec, case)
 
 
-def replaced_child(shadow):
-    """a child place of a pre-existing container that now holds another object (mappings, sequences)"""
+def replaced_child(shadow, skip=None):
+    """a child place of a pre-existing container that now holds another object (mappings, sequences);
+    skip = (container, ref): the null that became the container of the created tail"""
     for cid, (kind, items) in shadow.kids.items():
         obj = [x for x in shadow.keep if id(x) == cid][0]
         if kind == "M":
             for (k0, v0), (k1, v1) in zip(items, list(obj.items())):
-                if v0 is not v1:
+                if v0 is not v1 and not (skip is not None and obj is skip[0] and k1 == skip[1]):
                     return "under key %r" % (k0,)
         elif kind == "S":
             for j, (v0, v1) in enumerate(zip(items, list(obj))):
-                if v0 is not v1:
+                if v0 is not v1 and not (skip is not None and obj is skip[0] and j == skip[1]):
                     return "element %d" % j
     return None
 
@@ -336,18 +370,19 @@ def created_tail_ok(rec):
 
 
 def resolves(rec, case):
-    """the path now resolves to the supplied value"""
+    """the path now resolves - after a set: to the supplied value (after an optional query the created leaf is
+    wrap_type(value), see docs/C09b.md; that the path resolves to one node is checked all the same)"""
     text, path, value, fmt, mode = case
     p = rec["p"]
-    if True:
-        try:
-            got = list(p.get_nodes(rec["yp"], mustexist=True))
-        except Exception as e:  # noqa
-            return "after the set the path does not resolve (%s)" % type(e).__name__
-        if len(got) != 1:
-            return "after the set the path resolves to %d nodes" % len(got)
-        if not c03.value_ok(got[0].node, value, fmt):
-            return "after the set the path does not resolve to the supplied value"
+    what = "set" if mode == "set" else "optional query"
+    try:
+        got = list(p.get_nodes(rec["yp"], mustexist=True))
+    except Exception as e:  # noqa
+        return "after the %s the path does not resolve (%s)" % (what, type(e).__name__)
+    if len(got) != 1:
+        return "after the %s the path resolves to %d nodes" % (what, len(got))
+    if mode == "set" and not c03.value_ok(got[0].node, value, fmt):
+        return "after the set the path does not resolve to the supplied value"
     return None
 
 
@@ -427,21 +462,20 @@ def _verdict(case):
     return (rec.get("verdict") or "") if rec["kind"] == "run" else ""
 
 
-def _null_prefix(case, obs):
-    """F10b: a set_value whose existing prefix ends at a null overwrites that null; what fails is that the
-    requested path does not resolve afterwards (an optional QUERY through a null yields the null and changes
-    nothing: a query that replaces the null is not this finding)"""
-    return _prefix_kind(case) == "null" and case[4] == "set" and _verdict(case).startswith("after the set the path")
-
-
 def _set_prefix(case, obs):
-    """F25: set_value below a set replaces the whole set by the value"""
+    """F25: set_value below a set replaces the whole set by the value; an optional query whose path goes on
+    below the new member yields the set's own coordinate whatever follows, so the path does not resolve (the
+    guard `creates` of the document-level theorems: the tail starts below a set)"""
     v = _verdict(case)
-    return _prefix_kind(case) == "set" and case[4] == "set" and (
-        v.startswith("after the set the path") or v.startswith("a pre-existing node was replaced"))
+    if _prefix_kind(case) != "set":
+        return False
+    if case[4] == "set":
+        return v.startswith("after the set the path") or v.startswith("a pre-existing node was replaced")
+    return v.startswith("after the optional query the path")
 
 
-FINDING_PREDS = {"null_in_prefix": _null_prefix, "set_member_created_by_set_value": _set_prefix}
+# F10b null_in_prefix is repaired (fix 09e1e7a): a path that does not resolve after a set through a null is a violation
+FINDING_PREDS = {"set_member_created_by_set_value": _set_prefix}
 
 CORPUS = [
     ("{a: {b: 1}}", "a.c.d", "v", "DEFAULT", "set"),
@@ -451,6 +485,10 @@ CORPUS = [
     ("{s: !!set {x}}", "s.y", "v", "DEFAULT", "set"),
     ("{s: !!set {x}}", "s.y", "v", "DEFAULT", "query"),
     ("{a: null}", "a.b.c", "v", "DEFAULT", "set"),
+    ("{a: null}", "a.b.c", "v", "DEFAULT", "query"),
+    ("{a: [null, 1]}", "a[-2][1]", "v", "DEFAULT", "set"),
+    ("{a: [null, 1]}", "a.0.k[2]", 5, "INT", "query"),
+    ("[{a: null}, 1]", "[0].a[1].z", "x", "DEFAULT", "set"),
     ("{a: [1]}", "a[2][1].k", 5, "INT", "query"),
     ("[]", "[0]", None, "DEFAULT", "set"),
     ("{hosts: [{name: alpha}]}", "/hosts[3]/name", "delta", "DEFAULT", "set"),
@@ -469,12 +507,18 @@ def corpus_chunks():
 def gen_case(rng, text, data):
     locs = [(l, n) for l, n in mutgen.walk(data)]
     conts = [(l, n) for l, n in locs if isinstance(n, (dict, list))]
-    loc, node = rng.choice(conts if (conts and rng.random() < 0.75) else locs)
+    nulls = [(l, n) for l, n in locs if n is None and l]
+    beneath_null = bool(nulls) and rng.random() < 0.3
+    if beneath_null:
+        # the existing prefix ends at a null: the tail is built beneath it (fix 09e1e7a; was finding F10b)
+        loc, node = rng.choice(nulls)
+    else:
+        loc, node = rng.choice(conts if (conts and rng.random() < 0.75) else locs)
     base = mutgen.path_text(data, loc)
     base = "" if base == "/" else base
     cur = node
     tail = ""
-    n = rng.choice([0, 1, 1, 1, 2, 2, 3])
+    n = rng.choice([1, 1, 2, 3] if beneath_null else [0, 1, 1, 1, 2, 2, 3])
     for j in range(n):
         if isinstance(cur, list) or cur == "[]":
             ln = len(cur) if isinstance(cur, list) else 0
